@@ -55,6 +55,13 @@ MENU = [
     ('term-subs', 'start: item (_SEP item)* _END?\nitem: X | "(" start ")"\nX: "x"\n_SEP: /[,;]/\n_END: /[.!]/\n%ignore " "\n', 'x,;.()', 6),
     ('words-numbers', 'start: stmt+\nstmt: "move" NAME NUMBER ";" | "goto" NUMBER NUMBER ";" | "wait" NUMBER NAME? ";"\nNAME: /[a-c]+/\nNUMBER: /[0-9]+/\n%ignore " "\n', 'WORDS', 0),
     ('long-list', 'start: item*\nitem: X | "(" X ")"\nX: "x"\n%ignore " "\n', 'LONG', 0),
+    # rules and aliases named like attributes of the reconstructor's internal transformer
+    ('rule-names', 'start: (tokens | term_subs | transform | other)+\ntokens: X "," X\nterm_subs: "(" X ")"\ntransform: X ":" -> transform_tree\n'
+                   '    | X ";"\nother: X "z" -> tokens\nX: "x"\n%ignore " "\n', 'x,():;z', 6),
+    # a keep-all rule with an optional part next to a named filtered terminal
+    ('keep-all-opt', 'start: stmt+\n!stmt: X ["=" X] _SEMI | "(" X _SEMI? ")"\nX: "x"\n_SEMI: ";"\n%ignore " "\n', 'x=;()', 7),
+    # equal kept symbols in alternatives that are not adjacent; one alias on alternatives that are not adjacent
+    ('separated-twins', 'start: decl+\ndecl: "v" X ";" | "c" X "=" val ";" | "l" X ";"\n?val: X -> lit | "(" X ")" -> par | "z" -> lit\nX: "x"\n%ignore " "\n', 'vclx=;(z)', 5),
     ('kw', 'start: stmt+\nstmt: "if" NAME "then" stmt -> cond | NAME "=" NAME ";" -> assign\nNAME: /[a-c]/\n%ignore " "\n', None, 0),
 ]
 SIGIL_INPUTS = ['$a b;', 'a $b;', '$ab c;$c a;', 'ab $c; $a bc;']
